@@ -2,11 +2,26 @@
 // Under Kani every draw is an arbitrary value (so "for every key set drawn at start-up" is
 // literal); natively it is a splitmix64 stream seeded from VERIF_SEED (distinct 64-bit keys).
 pub trait Draw { fn draw() -> Self; }
+/// Harness control of the draw sequence (C11 "every feature has its own key"): mode 1 records the draws of one
+/// construction (taken from the symbolic input stream), mode 2 replays them with draw number `d` XOR-ed with `delta`.
+/// Mode 0 (default) is the plain model.  One struct with a sentinel field (see search/src/envmodel.rs).
+pub const MAXDRAWS: usize = 900;
+pub struct RandCtl { pub magic: u64, pub mode: u8, pub n: usize, pub d: usize, pub delta: u64, pub draws: [u64; MAXDRAWS] }
+pub static mut RF: RandCtl = RandCtl { magic: 0x5EED_4A4D_0BAD_F00D, mode: 0, n: 0, d: usize::MAX, delta: 0, draws: [0; MAXDRAWS] };
+fn controlled() -> Option<u64> {
+    unsafe {
+        if RF.mode == 0 { return None; }
+        let i = RF.n; RF.n += 1;
+        if RF.mode == 1 { let v = crate::sym::u64(); if i < MAXDRAWS { RF.draws[i] = v; } Some(v) }
+        else { let v = if i < MAXDRAWS { RF.draws[i] } else { 0 }; Some(if i == RF.d { v ^ RF.delta } else { v }) }
+    }
+}
 #[cfg(kani)]
-impl Draw for u64 { fn draw() -> u64 { kani::any() } }
+impl Draw for u64 { fn draw() -> u64 { match controlled() { Some(v) => v, None => kani::any() } } }
 #[cfg(not(kani))]
 impl Draw for u64 {
     fn draw() -> u64 {
+        if let Some(v) = controlled() { return v; }
         use std::sync::atomic::{AtomicU64, Ordering};
         static S: AtomicU64 = AtomicU64::new(0);
         let mut z = S.fetch_add(0x9E3779B97F4A7C15, Ordering::Relaxed)
